@@ -688,6 +688,29 @@ pub fn block(cfg: &GenCfg) -> BoxedStrategy<Block> {
                     }
                 }
             }
+            // kept (`-keep`) classes and members map to themselves: the remapped frame then equals the queried one
+            if (88..100).contains(&dice) {
+                let keep_class = dice % 2 == 0;
+                for it in items.iter_mut() {
+                    match it {
+                        Item::Method(m) => {
+                            m.oname = m.obf.clone();
+                            if dice >= 94 {
+                                m.oclass = None;
+                                m.olines = match m.range {
+                                    Some((s, e)) if dice % 3 == 0 => OLines::SE(s, e),
+                                    Some((s, _)) if dice % 3 == 1 => OLines::S(s),
+                                    _ => OLines::None,
+                                };
+                            }
+                        }
+                        Item::Field { orig, obf, .. } => *orig = obf.clone(),
+                        _ => {}
+                    }
+                }
+                let orig = if keep_class { obf.clone() } else { orig };
+                return Block { orig, obf, items };
+            }
             Block { orig, obf, items }
         })
         .boxed()
